@@ -1,6 +1,7 @@
 import FrappyProofs.Lemmas.WireCore
 import FrappyProofs.Lemmas.ClientOf
 import FrappyProofs.Lemmas.TextRoundtrip
+import FrappyProofs.Lemmas.ClientText
 import FrappyProofs.Lemmas.RatWireLaws
 import FrappyModel.Generated.C02
 /-
@@ -52,81 +53,43 @@ theorem wire_roundtrip_client (T : JsonText F) (dt cdt : DType F) (hwf : dt.WF) 
 
 /-! ## the text form is accepted back and maps to a value with the identical text form -/
 
-/-- full statement: every well-formed tree (structs included), every valid canonical value (structs of node-side types
-given with all members, `TextComplete`), enum names that `strip` leaves alone -/
-def text_roundtrip_statement (F : Type) [FloatOps F] [WireLaws F] : Prop :=
-  ∀ (lib : TextLib F), TextLib.Lawful lib → ∀ (dt : DType F), dt.WF → NamesStripped lib dt →
-  ∀ (v : PVal F), Valid dt v → Canon v → TextComplete dt v →
-  ∃ t v', toString lib dt v = some t ∧ fromString lib dt t = .ok v' ∧ toString lib dt v' = some t ∧ SameButFloats v' v
-
-/-- proved part: every tree without a struct node (all leaf kinds, arrays, tuples — the one-member tuple included).
-Missing: the struct case (the model and the monitors cover it; the correspondence run judges it on the implementation). -/
-theorem text_roundtrip_partial (lib : TextLib F) (hl : TextLib.Lawful lib) (dt : DType F) (hwf : dt.WF)
-    (hns : NoStruct dt) (hnames : NamesStripped lib dt) (v : PVal F) (hv : Valid dt v) (hc : Canon v) :
+/-- every well-formed tree (structs included), every valid canonical value (structs of node-side types given with all
+their members: `TextComplete`; nothing is asked on a client's type), enum names that `strip` leaves alone: `to_string`
+answers a text, `from_string` accepts it, the value it is read as has the identical text form and equals `v` at every
+non-float leaf -/
+theorem text_roundtrip (lib : TextLib F) (hl : TextLib.Lawful lib) (dt : DType F) (hwf : dt.WF)
+    (hnames : NamesStripped lib dt) (v : PVal F) (hv : Valid dt v) (hc : Canon v) (htc : TextComplete dt v) :
     ∃ t v', toString lib dt v = some t ∧ fromString lib dt t = .ok v' ∧ toString lib dt v' = some t ∧
       SameButFloats v' v := by
-  have core := text_core lib hl dt [] v hwf hns hv hc
-  cases dt with
-  | string minc maxc utf8 =>
-    cases v <;> simp only [Valid, InSetG] at hv <;> try exact hv.elim
-    case str s =>
-      have h := string_rt (F := F) hv
-      exact ⟨.bare s, .str s, rfl, by simp [fromString, h, Except.map], rfl, by simp [SameButFloats]⟩
-  | enum ms =>
-    cases v <;> simp only [Valid, InSetG] at hv <;> try exact hv.elim
-    case enum n k =>
-      simp only [DType.WF] at hwf
-      simp only [NamesStripped] at hnames
-      have hs : lib.strip n = n := hnames (n, k) hv
-      have hf := find_member_name hv hwf.2.1
-      exact ⟨.bare n, .enum n k, rfl, by simp [fromString, hs, hf], rfl, by simp [SameButFloats]⟩
-  | bool =>
-    cases v <;> simp only [Valid, InSetG] at hv <;> try exact hv.elim
-    case bool b =>
-      refine ⟨.bare (lib.reprBool b), .bool b, rfl, ?_, rfl, by simp [SameButFloats]⟩
-      cases b
-      · simp [fromString, hl.boolWordFalse, boolFalseWords]
-      · simp [fromString, hl.boolWordTrue, boolFalseWords, boolTrueWords]
-  | double min max ar rr =>
-    obtain ⟨s, w, v', h1, h2, h3, h4, h5⟩ := core
-    exact ⟨.syn s, v', by simp [Datatypes.toString, h1], by simp [fromString, h2, h3], by simp [Datatypes.toString, h4], h5⟩
-  | int min max =>
-    obtain ⟨s, w, v', h1, h2, h3, h4, h5⟩ := core
-    exact ⟨.syn s, v', by simp [Datatypes.toString, h1], by simp [fromString, h2, h3], by simp [Datatypes.toString, h4], h5⟩
-  | scaled scale min max ar rr =>
-    obtain ⟨s, w, v', h1, h2, h3, h4, h5⟩ := core
-    exact ⟨.syn s, v', by simp [Datatypes.toString, h1], by simp [fromString, h2, h3], by simp [Datatypes.toString, h4], h5⟩
-  | blob minb maxb =>
-    obtain ⟨s, w, v', h1, h2, h3, h4, h5⟩ := core
-    exact ⟨.syn s, v', by simp [Datatypes.toString, h1], by simp [fromString, h2, h3], by simp [Datatypes.toString, h4], h5⟩
-  | array elem lo hi =>
-    obtain ⟨s, w, v', h1, h2, h3, h4, h5⟩ := core
-    exact ⟨.syn s, v', by simp [Datatypes.toString, h1], by simp [fromString, h2, h3], by simp [Datatypes.toString, h4], h5⟩
-  | tuple elems =>
-    obtain ⟨s, w, v', h1, h2, h3, h4, h5⟩ := core
-    exact ⟨.syn s, v', by simp [Datatypes.toString, h1], by simp [fromString, h2, h3], by simp [Datatypes.toString, h4], h5⟩
-  | struct ms opt cl => simp [NoStruct] at hns
+  obtain ⟨t, v', h1, h2, h3, h4, _⟩ := text_rt lib hl dt (wft_of_wf dt hwf) hnames v hv hc htc
+  exact ⟨t, v', h1, h2, h3, h4⟩
+
+/-- … the same on the datatype a client rebuilt from the description, for every valid value of it (structs may lack
+their optional members there: every rebuilt struct has `client = True`) -/
+theorem text_roundtrip_client (lib : TextLib F) (hl : TextLib.Lawful lib) (dt cdt : DType F) (hwf : dt.WF)
+    (hc : clientOf dt = some cdt) (hnames : NamesStripped lib cdt) (v : PVal F) (hv : Valid cdt v) (hcan : Canon v) :
+    ∃ t v', toString lib cdt v = some t ∧ fromString lib cdt t = .ok v' ∧ toString lib cdt v' = some t ∧
+      SameButFloats v' v := by
+  obtain ⟨t, v', h1, h2, h3, h4, _⟩ := text_rt lib hl cdt (wft_clientOf dt cdt (wft_of_wf dt hwf) hc) hnames v hv hcan
+    (textComplete_clientOf dt cdt v hc)
+  exact ⟨t, v', h1, h2, h3, h4⟩
 
 /-! ## what `setParameterFromString` puts on the wire imports, on the node, to the value the text was read as -/
 
-/-- full statement: for every valid canonical value `v` held in the client's cache, the text `str(CacheItem)` is read
-back as some `v'`, and the value sent imports on the node to a value equal to `v'` -/
-def client_string_write_statement (F : Type) [FloatOps F] [WireLaws F] : Prop :=
-  ∀ (lib : TextLib F), TextLib.Lawful lib → B64Law → ∀ (dt cdt : DType F), dt.WF → clientOf dt = some cdt →
-  NamesStripped lib cdt → ∀ (v : PVal F), Valid cdt v → Canon v →
-  ∃ t v' j v'', cacheItemStr lib cdt v = some t ∧ fromString lib cdt t = .ok v' ∧ clientSetFromString lib cdt t = .ok j ∧
-    KindOK dt j ∧ StrictJ j ∧ importValue dt j = .ok v'' ∧ pyEq v'' v' = true
-
-/-- proved part: whenever the value the text is read as is a valid value of the node's type (always so when the type
-has no float leaf, where `text_roundtrip_partial` gives `v' = v` leaf by leaf; a re-read float may leave the limits),
-the value sent is the exported form — strict, of the prescribed kind — and imports on the node to a value equal to it.
-Missing: validity of the re-read value for float leaves. -/
-theorem client_string_write_partial (lib : TextLib F) (hb : B64Law) (dt cdt : DType F) (hwf : dt.WF)
-    (hc : clientOf dt = some cdt) (t : Text) (v' : PVal F) (hback : fromString lib cdt t = .ok v') (hv' : Valid dt v') :
-    ∃ j v'', clientSetFromString lib cdt t = .ok j ∧ KindOK dt j ∧ StrictJ j ∧ importValue dt j = .ok v'' ∧
-      pyEq v'' v' = true := by
-  obtain ⟨j, v'', h1, h2, h3, _, h4, h5⟩ := wire_core dt v' hwf hv' hb
-  exact ⟨j, v'', by simp [clientSetFromString, hback, export_clientOf dt cdt v' hc, h1], h2, h3, h4, h5⟩
+/-- for every valid canonical value `v` held in the client's cache (a value of the rebuilt type `cdt`), the text
+`str(CacheItem)` is read back by `from_string` as some `v'` with the identical text form (equal to `v` at every
+non-float leaf); the value `setParameterFromString` sends is of the kind prescribed by the node's type, strict, and
+imports on the node to a value equal to `v'`.  (A re-read float may lie outside the limits — `'%g' % 123456789.0`
+reads back as `123457000.0`; `import_value` does not look at limits, the `change` request validates.) -/
+theorem client_string_write (lib : TextLib F) (hl : TextLib.Lawful lib) (hb : B64Law) (dt cdt : DType F) (hwf : dt.WF)
+    (hc : clientOf dt = some cdt) (hnames : NamesStripped lib cdt) (v : PVal F) (hv : Valid cdt v) (hcan : Canon v) :
+    ∃ t v' j v'', cacheItemStr lib cdt v = some t ∧ fromString lib cdt t = .ok v' ∧ toString lib cdt v' = some t ∧
+      SameButFloats v' v ∧ clientSetFromString lib cdt t = .ok j ∧ KindOK dt j ∧ StrictJ j ∧
+      importValue dt j = .ok v'' ∧ pyEq v'' v' = true := by
+  obtain ⟨t, v', h1, h2, h3, h4, hs⟩ := text_rt lib hl cdt (wft_clientOf dt cdt (wft_of_wf dt hwf) hc) hnames v hv hcan
+    (textComplete_clientOf dt cdt v hc)
+  obtain ⟨j, v'', e1, e2, e3, _, e4, e5⟩ := send_core dt v' hwf (sendable_clientOf dt cdt v' hc hs) hb
+  exact ⟨t, v', j, v'', h1, h2, h3, h4, by simp [clientSetFromString, h2, export_clientOf dt cdt v' hc, e1], e2, e3, e4, e5⟩
 
 /-! ## constants of the source -/
 
